@@ -111,6 +111,11 @@ Wrap(kind, i, r) ==
     [] kind = "exec"      -> Res(<<ExecLet(id(""), "r", "inc" \o L(i))>>, r.ts \o <<Tm("inc" \o L(i), "", <<>>, m)>>, r.bl)
     \* {{ includeIfExists("t") }}: rendered in place, straight to the current writer
     [] kind = "incif"     -> Res(<<IncIf(id(""), "inc" \o L(i))>>, r.ts \o <<Tm("inc" \o L(i), "", <<>>, m)>>, r.bl)
+    \* exec / include of a template that EXTENDS a layout and overrides its block: the hole is in the override
+    [] kind \in {"execext", "includeext"} ->
+         Res(IF kind = "execext" THEN <<ExecLet(id(""), "r", "xc" \o L(i))>> ELSE <<Incl(id(""), "xc" \o L(i))>>,
+             r.ts \o <<Tm("xc" \o L(i), "xl" \o L(i), <<>>, <<BlockS(id("ov"), "xslot" \o L(i), <<>>, NoE, m)>>),
+                       Tm("xl" \o L(i), "", <<>>, <<T(id("la")), BlockS(id("ls"), "xslot" \o L(i), <<>>, NoE, <<T(id("dflt"))>>), T(id("lb"))>>)>>, r.bl)
     \* a failure below is swallowed by isset: rendering goes on as if the expression had not been evaluated
     [] kind = "issetexec" -> Res(<<IsSetExec(id(""), "ise" \o L(i))>>, r.ts \o <<Tm("ise" \o L(i), "", <<>>, m)>>, r.bl)
     [] kind = "tryin"     -> Res(<<TryS(id(""), m)>>, r.ts, r.bl)
